@@ -43,7 +43,19 @@ fn check_d<const D: usize>(c: &Phys, ctx: &mut Ctx) -> Result<(), Failure> {
         fail!("bad-case", "C06 needs at least two edges");
     }
     let s = match sut::build::<D>(g, c.kin.sig.clone()) {
-        Ok(s) => s,
+        Ok(s) => {
+            // every fourth case walks a sampler that went through a serde round trip (same table, same walk)
+            let h = c.x.iter().fold(0u64, |a, v| a.wrapping_mul(31).wrapping_add(v.to_bits()));
+            if h % 4 == 0 {
+                ctx.label("sampler:restored-from-json");
+                match serde_json::to_string(&s).ok().and_then(|t| serde_json::from_str(&t).ok()) {
+                    Some(r) => r,
+                    None => s,
+                }
+            } else {
+                s
+            }
+        }
         Err(BuildErr::Rejected(_)) => {
             ctx.label("skip:sut-rejected-graph");
             return Ok(());
